@@ -362,7 +362,7 @@ class Contract:
     """per-function facts, written after reading the code (tables/contracts.py)"""
 
     def __init__(self, buffers=None, requires=None, ensures=None, onepast=None, notes="", literals=None,
-                 foreign=None, invariants=None, axioms=None, ret=None, call_requires=None, objects=None, accessor_model=None):
+                 foreign=None, invariants=None, axioms=None, ret=None, call_requires=None, objects=None, accessor_model=None, lower_bounds=None):
         self.buffers = buffers or {}    # buffer term name -> bound expression (term name, '@entry' allowed)
         self.requires = requires or []  # [(a, b, c)] on parameter names: a - b <= c at entry
         self.ensures = ensures or {}    # by-ref param name -> list of ('inc',) | ('le', boundname)
@@ -380,6 +380,8 @@ class Contract:
         # name of the size getter ("Length" / "Size") when First()/Last()/End() of containers are to be read as
         # Storage(), Storage() + size - 1, Storage() + size (justified by the accessor bodies, checked by the rule that sets it)
         self.accessor_model = accessor_model
+        # buffer term name -> name of a term below which the function has no business (definite-violation rule only)
+        self.lower_bounds = lower_bounds or {}
         self.notes = notes
 
 
